@@ -28,10 +28,13 @@ def occ_atom(b):
 
 
 def range_args(b, e):
-    """(start expr, end expr) of RangeInclusive::new(start, end) inside an Index::index(bwt, range) expression"""
+    """(start expr, inclusive end expr) of the range inside an Index::index(bwt, range) expression; an exclusive
+    Range {start, end} is converted to the inclusive end `end - 1`"""
     for x in walk(e):
         if isinstance(x, tuple) and x[0] == 'call' and x[1].endswith('RangeInclusive::<Idx>::new') and len(x[2]) == 2:
             return x[2]
+        if isinstance(x, tuple) and x[0] == 'agg' and x[2].endswith('ops::Range::Range') and len(x[3]) == 2:
+            return (x[3][0], ('bin', 'Sub', x[3][1], ('const', 1, 'usize', None)))
     return None
 
 
@@ -118,8 +121,8 @@ def run(facts, rep, ctx):
             counts.append((bb, t, ra))
     key = 'Occ::get|count-sites'
     if len(counts) != 2 or any(c[2] is None for c in counts):
-        rep.bad(rule, key, '%s:%s' % (g.file, g.line), 'expected two bytecount::count sites over inclusive ranges of the BWT (low '
-                                                       'and high checkpoint), found %d' % len(counts))
+        rep.bad(rule, key, '%s:%s' % (g.file, g.line), 'expected two bytecount::count sites over ranges of the BWT (low and high '
+                                                       'checkpoint), found %d with a recognisable range' % sum(1 for c in counts if c[2]))
         return
     rep.ok(rule, key, '%s:%s' % (g.file, g.line), '2 sites')
     # which one is subtracted from a checkpoint (high) and which is added (low)
@@ -201,3 +204,27 @@ def run(facts, rep, ctx):
         rep.ok(rule2, key, b.loc(es[0][0]), 'text[p - 1] if p > 0 else text[n - 1]')
     else:
         rep.bad(rule2, key, '%s:%s' % (b.file, b.line), 'the BWT symbol of row r is not the cyclic predecessor of suffix pos[r]')
+
+
+    # ---- stability of the inverse permutation
+    rule3 = 'EF-9'
+    rep.rule(rule3, 'invert_bwt relies on bwtfind being the *stable* sort permutation of the BWT (equal symbols keep their row '
+                    'order): bwtfind must be the counting sort over less[] and must not use an unstable sort')
+    bf = facts.body('data_structures::bwt::bwtfind')
+    key = 'bwtfind|stable-counting-sort'
+    if bf is None:
+        rep.missing(rule3, key, 'not found')
+        return
+    fam = [bf] + facts.closures_of(bf.path)
+    for fb in fam:
+        rep.analysed_body(fb)
+    names = [call_info(t)['fn'] for fb in fam for _bb, t in fb.calls() if call_info(t)]
+    unstable = [n for n in names if 'sort_unstable' in n or 'select_nth_unstable' in n]
+    uses_less = any(n == 'data_structures::bwt::less' for n in names)
+    if unstable:
+        rep.bad(rule3, key, '%s:%s' % (bf.file, bf.line), 'bwtfind orders rows with %s: rows holding the same symbol may be permuted, '
+                                                          'so invert_bwt walks the wrong cycle' % unstable[0].rsplit('::', 1)[-1])
+    elif not uses_less and not any('sort' in n for n in names):
+        rep.bad(rule3, key, '%s:%s' % (bf.file, bf.line), 'bwtfind neither counts with less[] nor sorts')
+    else:
+        rep.ok(rule3, key, '%s:%s' % (bf.file, bf.line), 'counting sort over less[] (stable)' if uses_less else 'stable sort')
